@@ -111,18 +111,18 @@ def classes(case):
 
 
 @st.composite
-def _cases(draw):
+def _cases(draw, large=False):
     spec = draw(models.model_specs(noop=False))
     if spec.get('noop'):
         spec = dict(spec, noop=False)
     if draw(st.integers(0, 2)) == 0:
-        g = draw(graphs.wf_graphs(spec))
+        g = draw(graphs.wf_graphs(spec, max_vars=18 if large else 6))
         return {'k': 'built', 'g': g, 'model': spec}
-    j = draw(trees.wf_trees(spec, max_nodes=7, emptyconcept=False))
+    j = draw(trees.wf_trees(spec, max_nodes=25 if large else 7, emptyconcept=False, wide=10 if large else 3))
     case = {'k': 'tree', 'tree': j, 'model': spec, 'strip': draw(st.integers(0, 2)) == 0}
     if draw(st.integers(0, 2)) > 0:
         # number of triples is not known without interpreting; a permutation of a generous index range is cut to size
-        case['perm'] = fy(draw, list(range(draw(st.integers(2, 14)))))
+        case['perm'] = fy(draw, list(range(draw(st.integers(2, 60 if large else 14)))))
     return case
 
 
@@ -168,5 +168,6 @@ def stages(tier):
              'x every top x markers kept/stripped x written+reversed order; all permutations of the triple list for trees '
              'with <= 2 (quick) / 3 (thorough) branches and <= 5 triples'),
         Hyp('random', _cases, 6000, 400000),
+        Hyp('random-large', lambda: _cases(large=True), 150, 8000),
         Fuzz('coverage-guided-structured', 0, 1600000, structured=_cases, max_len=2048),
     ]
